@@ -8,7 +8,7 @@ for d in $STAGE/C*/[ABC]*; do
   [ -f checks/$(echo $id | tr 'A-Z' 'a-z').py ] || { echo "SKIP $id (no check yet)" >&2; continue; }
   extra=""
   case $id in
-    C01) extra="C02 C15";; C02) extra="C08 C03 C01 C15";; C04) extra="C01 C12";; C05) extra="C10 C02 C08";; C06) extra="C01";; C08) extra="C02 C15";;
+    C01) extra="C02 C15";; C02) extra="C08 C03 C01 C15";; C04) extra="C01 C12";; C05) extra="C04 C12 C10 C02 C08";; C06) extra="C01";; C08) extra="C02 C15";;
     C11) extra="C15";; C09) extra="C01 C08 C15";; C15) extra="C08";; C03) extra="C02 C08 C15";; C20) extra="C15 C19";; C10) extra="C15";; C14) extra="C12 C20 C15";; C19) extra="C06 C01 C04";; C12) extra="C04";; C18) extra="C01";;
   esac
   echo "$d/patch.diff $id $extra" | sed "s/ *$//"
